@@ -26,7 +26,7 @@ RULE = (
     "(family, size, decoration)."
 )
 MANIFEST = {
-    "text": "Size-parametrised search: generated families whose refinement depth grows linearly with size are driven past the first sizes where recursion, quadratic blow-ups or empty-sequence corner cases would break (depth > 1000, thousands of atoms, thousands of components, K_n, single atoms), checking that all three pipeline stages return and agree on atom/bond counts. Liveness is only observed up to a wall budget (timeout = inconclusive).",
+    "text": "Size-parametrised search: generated families whose refinement depth grows linearly with size are driven past the first sizes where recursion, quadratic blow-ups or empty-sequence corner cases would break (depth > 1000, thousands of atoms, thousands of components, K_n, single atoms), checking that all three pipeline stages return, agree on atom/bond counts, emit a string that passes the C05 layout validator (4-digit indices), leave an equitable partition, and - for light cases - can be repeated on the same objects and reach a fixed point. Liveness is only observed up to a wall budget (timeout = inconclusive).",
     "note": "Sizes are bounded by the tier budgets (quick: n up to ~2300 / 3000 components; thorough: up to ~6000).",
     "technique": "property-based testing over size-parametrised molecule families (Hypothesis, 16 shards: 12 heavy, 4 light)",
 }
